@@ -605,7 +605,8 @@ pub fn install() {
         .location()
         .map(|l| format!("{}:{}", l.file().rsplit('/').next().unwrap_or(""), l.line()))
         .unwrap_or_default();
-      let quiet = QUIET.with(|q| q.get()) || CTX.with(|c| c.borrow().is_some());
+      let quiet = (QUIET.with(|q| q.get()) || CTX.with(|c| c.borrow().is_some()))
+        && std::env::var_os("VSIM_LOUD").is_none();
       LAST_PANIC.with(|p| *p.borrow_mut() = Some(format!("{} [{}]", msg, loc)));
       if !quiet {
         default(info);
